@@ -715,6 +715,20 @@ def re_sub(ex, args, kw, st):
             r = f(s.z)
             st.fact(z3.Length(r) <= z3.Length(s.z))
             return VBytes(r)
+    cbc = ex.contract_for(f"{ex.qualname}.{getattr(repl, 'name', '')}") if isinstance(repl, VFunc) else None
+    if cbc is not None and not cbc.trusted:
+        # re.sub(P, callback, s) where the nested callback has a VERIFIED contract: the result keeps the text between the matches and replaces every match m by
+        # callback(m) (assumed of regex.sub); clauses of the callback named never-longer / printable then hold of the whole result (argued: induction over the matches)
+        f = uf(ex, "RESUB_CB_" + str(abs(hash(pat)) % 10**8), S, S)
+        r = f(s.z)
+        ex.assumed.add(f"regex.sub(P, callback, s) replaces every non-overlapping match m of P by callback(m) and keeps the text between matches; the callback {cbc.qualname.split('.')[-1]} "
+                       "is under contract (never longer than the match / printable), which carries over to the whole result by induction over the matches (argued)")
+        if "never-longer" in cbc.ensures:
+            st.fact(z3.Length(r) <= z3.Length(s.z))
+        if "printable" in cbc.ensures:
+            pr = z3.Star(z3.Range("!", "~"))
+            st.fact(z3.Implies(z3.InRe(s.z, pr), z3.InRe(r, pr)))
+        return VBytes(r)
     if isinstance(repl, VFunc) and "@resub_callback" in ex.c.types:
         # re.sub(P, callback, s) with a nested function as replacement: the result is an uninterpreted function of s; what the contract ASSUMES of the
         # callback (types["@resub_callback"], e.g. that every replacement is no longer than its match) is listed in the evidence and yields the facts below
